@@ -282,10 +282,16 @@ class HttpParser:
             # body indication received.
             elif self.state == httpParserStates.HEADERS_COMPLETE and \
                     not (self._content_expected or self._is_chunked_encoded) and \
-                    (raw == b'' or self.has_header(b'content-length')):
+                    (
+                        raw == b'' or
+                        self.has_header(b'content-length') or
+                        self.type == httpParserTypes.REQUEST_PARSER
+                    ):
                 # Either nothing follows the headers or the message
-                # declares an empty body (Content-Length: 0), in which case
-                # any following bytes are not part of this message.
+                # declares an empty body (Content-Length: 0) or it is a
+                # request without Content-Length and Transfer-Encoding,
+                # which has no body (RFC 7230, 3.3.3).  Any following
+                # bytes are not part of this message.
                 self.state = httpParserStates.COMPLETE
         self.buffer = None if raw == b'' else raw
 
